@@ -100,7 +100,7 @@ func c19(c *Ctx) {
 				if good {
 					var paths []string
 					for _, arg := range iv[0].Common().Args {
-						_, p, _ := flow.AccessPath(arg)
+						_, p, _ := flow.AccessPathC(arg)
 						paths = append(paths, p)
 					}
 					good = strings.Join(paths, ",") == "Spec.Of.APIVersion,Spec.Of.Kind,Spec.Of.ResourceRef.Name"
@@ -111,7 +111,7 @@ func c19(c *Ctx) {
 				for _, b := range fn.Blocks {
 					for _, in := range b.Instrs {
 						if bo, ok := in.(*ssa.BinOp); ok && bo.Op == token.EQL {
-							if _, p, okp := flow.AccessPath(bo.X); okp && p == "Spec.Of.ResourceRef" && cfgx.IsNilConst(bo.Y) {
+							if _, p, okp := flow.AccessPathC(bo.X); okp && p == "Spec.Of.ResourceRef" && cfgx.IsNilConst(bo.Y) {
 								t, _ := cfgx.CondEdges(bo)
 								noName = append(noName, t...)
 							}
@@ -119,12 +119,30 @@ func c19(c *Ctx) {
 					}
 				}
 				for _, lc := range cfgx.LenCmps(fn) {
-					if _, p, okp := flow.AccessPath(lc.Of); okp && p == "Spec.Of.ResourceRef.Name" && lc.Eval(0) != lc.Eval(1) {
+					if _, p, okp := flow.AccessPathC(lc.Of); okp && p == "Spec.Of.ResourceRef.Name" && lc.Eval(0) != lc.Eval(1) {
 						t, f := lc.Edges()
 						if lc.Eval(0) {
 							noName = append(noName, t...)
 						} else {
 							noName = append(noName, f...)
+						}
+					}
+				}
+				// an object that is not a (non-nil) Usage has nothing to index either
+				for _, b := range fn.Blocks {
+					for _, in := range b.Instrs {
+						ta, ok := in.(*ssa.TypeAssert)
+						if !ok || !ta.CommaOk || !strings.HasSuffix(ta.AssertedType.String(), "v1beta1.Usage") {
+							continue
+						}
+						if okv := extractOf(ta, 1); okv != nil {
+							_, f := cfgx.CondEdges(okv)
+							noName = append(noName, f...)
+						}
+						if uv := extractOf(ta, 0); uv != nil {
+							for _, cf := range findCmps(fn, true, func(x, y ssa.Value) bool { return x == uv && cfgx.IsNilConst(y) }) {
+								noName = append(noName, cf.Holds...)
+							}
 						}
 					}
 				}
@@ -276,7 +294,7 @@ func c19(c *Ctx) {
 			for _, b := range val.Blocks {
 				for _, in := range b.Instrs {
 					if st, ok := in.(*ssa.Store); ok {
-						if r, p, okp := flow.AccessPath(st.Addr); okp && flow.Root(r) == lobj && strings.HasPrefix(p, "Items") {
+						if r, p, okp := flow.AccessPathC(st.Addr); okp && flow.Root(r) == lobj && strings.HasPrefix(p, "Items") {
 							narrowed = c.pos(st.Pos())
 						}
 					}
@@ -483,7 +501,7 @@ func c19(c *Ctx) {
 				for _, b := range rec.Blocks {
 					for _, in := range b.Instrs {
 						if bo, ok := in.(*ssa.BinOp); ok {
-							if _, p, okp := flow.AccessPath(bo.X); okp && p == "Spec.By" && cfgx.IsNilConst(bo.Y) {
+							if _, p, okp := flow.AccessPathC(bo.X); okp && p == "Spec.By" && cfgx.IsNilConst(bo.Y) {
 								t, f := cfgx.CondEdges(bo)
 								if bo.Op == token.EQL {
 									skip = append(skip, t...)
@@ -492,7 +510,7 @@ func c19(c *Ctx) {
 								}
 							}
 							if bo.Op == token.NEQ || bo.Op == token.EQL {
-								_, px, _ := flow.AccessPath(bo.X)
+								_, px, _ := flow.AccessPathC(bo.X)
 								if strings.HasSuffix(px, "UID") && hasSuffixCall(bo.Y, ".GetUID") {
 									t, f := cfgx.CondEdges(bo)
 									if bo.Op == token.NEQ {
